@@ -48,7 +48,7 @@ pub const DIMS: &[Dim] = &[
     Dim { name: "max_row_group_bytes", choices: &["None", "1", "64"] },
     Dim { name: "compression", choices: &["UNCOMPRESSED", "SNAPPY", "GZIP", "BROTLI", "LZ4", "LZ4_RAW", "ZSTD"] },
     Dim { name: "statistics", choices: &["Page", "None", "Chunk"] },
-    Dim { name: "bloom_filter", choices: &["off", "on(max_ndv=1000)", "on(ndv=1,fpp=0.5)", "on(default ndv=1M; single deviation only)"] },
+    Dim { name: "bloom_filter", choices: &["off", "on(max_ndv=1000)", "on(ndv=1,fpp=0.5)", "on(default ndv=1M; dedicated block only)"] },
     Dim { name: "content_defined_chunking", choices: &["off", "min=1,max=2,norm=-1", "min=1,max=40,norm=0"] },
     Dim { name: "coerce_types", choices: &["false", "true"] },
     Dim { name: "offset_index_disabled", choices: &["false", "true"] },
@@ -109,11 +109,6 @@ impl Cfg {
 /// all configurations with exactly `k` deviations over the dimensions in `dims`, lexicographic
 pub fn exactly(k: usize, dims: &[usize]) -> Vec<Cfg> {
     fn rec(k: usize, dims: &[usize], from: usize, cur: &mut Vec<(usize, usize)>, out: &mut Vec<Cfg>) {
-        // the default-sized bloom filter (1M distinct values, ~1 MiB zeroed per column chunk) is only
-        // enumerated as a single deviation: it costs ~1 ms per file
-        if cur.len() + k > 1 && cur.iter().any(|x| *x == (D_BLOOM, 3)) {
-            return;
-        }
         if k == 0 {
             out.push(Cfg(cur.clone()));
             return;
@@ -121,6 +116,11 @@ pub fn exactly(k: usize, dims: &[usize]) -> Vec<Cfg> {
         for i in from..dims.len() {
             let d = dims[i];
             for c in 1..DIMS[d].choices.len() {
+                // the default-sized bloom filter (1M distinct values, 1 MiB zeroed per column chunk, up to
+                // ~50 ms per file on this box) is not part of the product; C05 has a dedicated block for it
+                if d == D_BLOOM && c == 3 {
+                    continue;
+                }
                 cur.push((d, c));
                 rec(k - 1, dims, i + 1, cur, out);
                 cur.pop();
